@@ -37,7 +37,7 @@ class FnContract:
     def __init__(self, key, file=None, qual=None, params=None, free=None, returns='any', is_async=False, suspends=None,
                  requires=(), ensures=(), raises=(), modifies=(), ghost_modifies=(), loops=None, callsites=None,
                  locals=None, cancellable=None, interference=None, assume_asserts=(), trusted=False, pure=False,
-                 self_cls=None, notes='', path_budget=4000, spec_term=None, exits_ensure=(), varkw=None, allocates=True, cancel_must_propagate=False, exit_hook=None, ctx_modifies=(), raises_tags=(), wf_fields=(), ignore_callee_raises=None, assumes=()):
+                 self_cls=None, notes='', path_budget=4000, spec_term=None, exits_ensure=(), varkw=None, allocates=True, cancel_must_propagate=False, exit_hook=None, ctx_modifies=(), raises_tags=(), wf_fields=(), ignore_callee_raises=None, assumes=(), spawns=(), typed_elements=False):
         self.key = key
         self.file = file
         self.qual = qual
@@ -67,6 +67,8 @@ class FnContract:
         self.cancel_must_propagate = cancel_must_propagate
         self.exit_hook = exit_hook
         self.ignore_callee_raises = ignore_callee_raises or {}   # callee key -> labels of its caller-only (over-approximate) raises clauses not explored here
+        self.typed_elements = typed_elements   # state the class of list elements read under quantifiers (needed where object identity is derived from id())
+        self.spawns = tuple(spawns)      # contract keys of the coroutines this function starts as tasks (checked at each create_task)
         self.assumes = [Clause.of(c) for c in assumes]   # global assumptions (trusted base) used by the body proof; not a caller obligation
         self.wf_fields = tuple(wf_fields)   # dict-valued fields whose insertion-order representation invariant is assumed on every read
         self.raises_tags = tuple(raises_tags)   # property tags of the `only declared exceptions escape` obligation
@@ -102,12 +104,51 @@ class Spec:
         self.subclasses: dict[str, tuple[str, ...]] = {}
         self.injective_fstrings: set[str] = set()
 
-    def define(self, name, params, expr):
-        """A spec-only function given by an expression of the contract language over its parameters."""
+    def define(self, name, params, expr, opaque=False):
+        """A spec-only function given by an expression of the contract language over its parameters.
+
+        opaque=True (boolean definitions over reference-typed parameters that read only the heap): an application whose arguments
+        mention a quantified variable is encoded as an uninterpreted predicate of (arguments, the heap arrays the expansion
+        reads); every application on ground arguments stays the expansion itself and contributes the defining equation
+        `pred(args, arrays) == expansion` - a conservative extension: the predicate is constrained by nothing else. This keeps the
+        bodies of quantified invariants small; what a proof needs about a particular object comes from its ground instance."""
         def f(ex, *args):
             if len(args) != len(params):
                 raise ValueError('spec function %s expects %d arguments' % (name, len(params)))
-            return ex.spec_eval(expr, dict(zip(params, args)), entry=ex.entry)
+            if not opaque:
+                return ex.spec_eval(expr, dict(zip(params, args)), entry=ex.entry)
+            import z3
+            from .smt import Ref
+            from .values import mk_bool
+            logs = getattr(ex, 'reads_log', None)
+            if logs is None:
+                logs = ex.reads_log = []
+            log = []
+            logs.append(log)
+            try:
+                val = ex.spec_eval(expr, dict(zip(params, args)), entry=ex.entry)
+            finally:
+                logs.pop()
+            if logs:
+                logs[-1].extend(log)
+            arrays = {}
+            for field, arr in log:
+                if field in arrays and not arrays[field].eq(arr):
+                    return val                       # reads two states of one field: stays transparent
+                arrays[field] = arr
+            terms = [a.term for a in args]
+            if val.ty.kind != 'bool' or not all(z3.is_expr(t) and t.sort() == Ref for t in terms):
+                return val
+            arrs = [arrays[k] for k in sorted(arrays)]
+            fn = z3.Function('def_%s<%s>' % (name, ','.join(sorted(arrays))), *([Ref] * len(terms) + [a.sort() for a in arrs] + [z3.BoolSort()]))
+            app = fn(*(terms + arrs))
+            bound = {b.get_id() for bs in getattr(ex, 'qbound', []) for b in bs}
+            if bound:
+                from .calls import _free_consts
+                if any(c.get_id() in bound for t in terms for c in _free_consts(t)):
+                    return mk_bool(app)
+            ex.assume(app == val.term)
+            return val
         self.specfuns[name] = f
         self.definitions = getattr(self, 'definitions', {})
         self.definitions[name] = (params, expr)
